@@ -110,6 +110,14 @@ fn builders<C: Combo>(sink: &mut Sink, rng: &mut Rng, thorough: bool) {
       rs.push(r0.end..(r0.end + 1).min(ub).max(r0.end + 1).min(ub)); // touching
       rs.retain(|r| r.start < r.end);
     }
+    // empty ranges (the empty set: a zero-duration observation, a zero-width band) must contribute nothing,
+    // whether or not their bound is aligned on the cells of the builder depth (no RNG draw: the stream of the
+    // other cases is unchanged)
+    if len % 3 == 1 {
+      rs.push(base..base);
+      let u = (base + unit / 2 + 1).min(ub - 1);
+      rs.insert(0, u..u);
+    }
     for (oname, rr) in orders(rng, &rs.iter().map(|r| (r.start, r.end)).collect::<Vec<_>>()) {
       let rr: Vec<Range<u64>> = rr.iter().map(|(a, b)| *a..*b).collect();
       for cap in [1usize, 2, 3, 5, rr.len().max(1), rr.len() + 1] {
